@@ -189,6 +189,7 @@ def C03(tier):
     obs.append(ns_pivot_ob(tier))
     obs.append(ns_balance_ob(tier))
     obs += ns_whole_obs(tier, ("feasible",))
+    obs.append(ns_tree_obs(tier)[0])
     return dict(obligations=obs)
 
 
@@ -200,6 +201,7 @@ def C04(tier):
                      consts={"P5": 0, "SZ": 2},
                      bounds="all canonical edge lists N<=%d M<=%d x {SinkColoring,VAlign,PackRight} x {greedy,dfs} x {NS,LP}; %s" % (N, M, SYMB)),
            layered_ob(tier, [4, 1, 5]),
+           *ns_tree_obs(tier),
            layout_ob("layout-no-overlap-sinkcoloring-5", "Harness_E_C04", edge_lists(5, 4, selfloops=False, connected=True)[::nm(q, 4, 1)], {"P1": [0]},
                      consts={"P2": 0, "P4": 4, "P5": 0, "SZ": 4, "LSFIX": 1},
                      bounds="%s canonical connected trees/forests with N=5 M=4 (every edge order) x SinkColoring (default pipeline); symbolic widths, NodeSpacing" % nm(q, "every 4th of the", "all")),
@@ -209,7 +211,7 @@ def C04(tier):
            layout_ob("layout-no-overlap-nspos", "Harness_E_C04", shapes(3, 2) if q else shapes(3, 3), {"P1": [0, 1]},
                      consts={"P2": 0, "P4": 3, "P5": 0, "SZ": 2, "INTSZ": 1, "MAXSZ": 2}, loop=192, enctimeout=nm(q, 100, 400),
                      bounds="canonical edge lists x NetworkSimplex positioner; symbolic integer W,H,spacings in 0..2"),
-           layout_ob("layout-no-overlap-nspos-concrete", "Harness_E_C04", shapes(3, 3) if q else shapes(4, 4), {"P1": [0, 1]},
+           layout_ob("layout-no-overlap-nspos-concrete", "Harness_E_C04", shapes(3, 3) + shapes(4, 4, selfloops=False, connected=True)[::4] if q else shapes(4, 4), {"P1": [0, 1]},
                      consts={"P2": 0, "P4": 3, "P5": 0, "SZ": 5, "INTSZ": 1, "NSFIX": 10, "LSFIX": 20}, loop=192,
                      bounds="canonical edge lists x NetworkSimplex positioner; concrete heterogeneous sizes 10..22 x 8..12, spacing 10/20")]
     return dict(obligations=obs)
@@ -318,6 +320,17 @@ def ns_whole_obs(tier, which):
                         bounds="whole real execNetworkSimplex without balancing, iteration budget beyond the engine's loop bound (capped runs are cut, not judged), same cubes; "
                                "symbolic: minimum lengths 0..2 and an arbitrary alternative layering alt[] - the solver searches for a cheaper feasible one"))
     return out
+
+
+def ns_tree_obs(tier):
+    q = tier == "quick"
+    grid = [(3, 3), (4, 4)] if q else [(3, 3), (4, 4), (4, 5)]
+    return [dict(name="ns-feasible-tree-lemma", pkg="internal/phase2", func="Harness_NS_FeasibleTree", consts={}, cubes=dag_cubes(grid), enctimeout=120, qtimeout=60,
+                 bounds="real feasibleTree (initLayers + tight-tree growth) on all canonical connected DAGs with (N,M) in %s; symbolic: minimum lengths 0..3 per edge; "
+                        "result: feasible layering, exactly N-1 tight tree edges forming a spanning tree" % grid),
+            dict(name="ns-hbalance-lemma", pkg="internal/phase2", func="Harness_NS_HBalance", consts={}, cubes=dag_cubes([(3, 3), (4, 4)]), enctimeout=120, qtimeout=60, validate_cubes=0,
+                 bounds="hbalance (the NetworkSimplex positioner's balancing) from an arbitrary feasible tight spanning tree: DAGs (3,3),(4,4); symbolic layering, tree, "
+                        "minimum lengths 0..3, weights 0..2")]
 
 
 def ns_balance_ob(tier):
